@@ -29,7 +29,11 @@ def gen_atoms(rng, family, opts):
     if opts.get("constraints", True):
         r = rng.random()
         if family == "grand":
-            if mol and a["framework"] and r < 0.5:
+            if mol and a["framework"] and r < 0.6:
+                cons = ["FixAtoms:framework"]
+                a["fw_last"] = bool(rng.random() < 0.6)
+            elif not mol and a["n"] >= 3 and r < 0.4:
+                a["spectators_last"] = int(rng.integers(1, 3))
                 cons = ["FixAtoms:framework"]
         elif r < 0.25:
             cons = ["FixAtoms:first1"]
@@ -43,6 +47,14 @@ def d_move(rng, mol, opts, labels=None):
     m = {"t": "D", "op": pick(rng, OPS_MOL if mol else OPS_ATOM)}
     if labels is not None:
         m["labels"] = labels
+    if opts.get("labelmods", True):
+        r = rng.random()
+        if r < 0.12:
+            m["labelmod"] = "allneg"
+        elif r < 0.3:
+            m["labelmod"] = "someneg"
+        elif r < 0.45:
+            m["labelmod"] = pick(rng, ["gap", "rev"])
     v = pick(rng, VETOES) if opts.get("vetoes", True) else None
     if v:
         m.update({"veto": v, "max_attempts": int(rng.integers(1, 4)), "salt": int(rng.integers(1000))})
@@ -90,6 +102,8 @@ def gen_table(rng, family, mol, opts):
         else:  # grand
             eop = {"t": "TranslationRotation"} if opts.get("species", 1) > 1 else pick(rng, [None, {"t": "Translation"}])
             em = {"t": "E", "op": eop, "bias": float(pick(rng, [0.5, 0.5, 0.3, 0.7]))}
+            if opts.get("labelmods", True) and rng.random() < 0.3:
+                em["labelmod"] = pick(rng, ["gap", "rev"])
             if "default_label" in opts and rng.random() < 0.5:
                 em["default_label"] = opts["default_label"]
             if opts.get("vetoes", True) and rng.random() < 0.2:
